@@ -150,12 +150,17 @@ func (ex *Exec) noteErrorCreated(st *State, iface Val, t types.Type, ref string)
 
 // newWrappedError models fmt.Errorf / errors.Join results: a fresh non-nil error whose chain is the union of the wrapped ones.
 func (ex *Exec) newWrappedError(st *State, wrapped []Val, nonNil string, prefix string) Val {
+	return ex.newWrappedError2(st, wrapped, nonNil, prefix, false)
+}
+
+// newWrappedError2: with open set, nothing is assumed about the chain (the caller states it).
+func (ex *Exec) newWrappedError2(st *State, wrapped []Val, nonNil string, prefix string, open bool) Val {
 	ex.declChain()
 	tag := num(int64(ex.w.typeIDByName("*fmt.wrapError")))
 	ref := ex.alloc(st)
 	v := Val{T: types.Universe.Lookup("error").Type(), L: []string{ite(nonNil, tag, "0"), ite(nonNil, ref, "0")}}
 	v = ex.nameVal(prefix, v)
-	if ex.pure > 0 {
+	if ex.pure > 0 || open {
 		return v
 	}
 	var cs []string
